@@ -15,6 +15,7 @@
 -/
 import MocVerif.Model.STCodec
 import MocVerif.Model.STText
+import MocVerif.Model.ST
 import MocVerif.Props.C07
 import MocVerif.Lemmas.TextST
 import MocVerif.Lemmas.Fits
@@ -166,6 +167,14 @@ theorem fits_st_file_header (w d1 d2 : Nat) (rows : List Rng) (h1 : d1 ≤ 255) 
     rw [List.map_append, List.append_assoc, List.append_assoc, List.drop_left' hl1, List.take_left' hl2, map_ofNat_toNat]
   rw [hb, hwl]
   exact decodeHdrST_written w d1 d2 (rows.length <<< 1) h1 h2 hw hn
+
+/-- **`compute_n_ranges` is the number of row pairs of the ST FITS file**: the count the writer declares
+    (`NAXIS2 = 2 × compute_n_ranges`) is the number of ranges it writes, for every ST-MOC. -/
+theorem st_row_count (w : Nat) (m : List Elem) : (encodeST w m).length = Moc.nRangesST m := by
+  induction m with
+  | nil => rfl
+  | cons e t ih =>
+    simp only [encodeST, encElem, List.length_append, List.length_map, ih, Moc.nRangesST]
 
 end FitsFile
 
